@@ -136,6 +136,24 @@ CHECKS['C09'] = {
     'note': 'Trusted: pyvc; pickle and scipy.sparse (A6); slice mode starts at the loop with arbitrary dictionaries; precondition: no stored entry is exactly 0.0.',
 }
 
+CHECKS['C06'] = {
+    'level': 'other',
+    'technique': 'bounded stand-in: ALTO export/import contract on real lxml over a structured grid + exhaustive order-conversion check (deductive part: see evidence when contracts/alto.py is present)',
+    'text': ('BOUNDED: export never raises; per block/line exactly one TextLine in order with String CONTENTs = transcription.split() (logical order on Arabic lines) in the '
+             'aligned and the fallback branch; integer geometry for fractional coordinates; WC in [0,1]; only lines below min confidence dropped; print space = bounding box, '
+             'margins tile the page up to integer truncation; re-import gives the same words - for 20 transcriptions (blank/NBSP/tab/thin/ideographic/zero-width spaces, '
+             'out-of-charset, Arabic/Latin) x 5 logits kinds x structures. _reverse is a permutation and an involution on all strings of length <= 5 (6) over 9 symbols.'),
+    'note': 'Trusted: lxml, crop engine for word boxes (C10), CPython str.split/isspace; nothing outside the grid is decided.',
+}
+CHECKS['C07'] = {
+    'level': 'other',
+    'technique': 'bounded stand-in: run-time contract of the real process_lines with a local stub network, exhaustive over short line lists, batch sizes, modes, orders and call histories',
+    'text': ('BOUNDED: at every input position the transcription, the logits inside the frame window and the window equal those computed from that image alone, for lists of '
+             '0..3 widths from {1,31,32,33,100,500,4000} x batch sizes x 5 modes, permutations of longer lists, and calls after other calls on the same engine; window = '
+             '[pad/4, (pad+w)/4) clipped to existing frames; sparse storage keeps exactly logits with posterior >= 1e-4.'),
+    'note': 'Trusted: the stub network represents "any local network"; transformer splitting/merging is C15; no unbounded scatter proof yet.',
+}
+
 NOT_APPLICABLE = {
     'C20': ('equality up to round-off of float tensors produced by torch C++ kernels through module-resident caches across calls: no contract '
             'within reach can state it over reals, no finite domain makes a bounded check exhaustive; a random differential test would be a different technique (DESIGN.md §6)'),
